@@ -43,6 +43,8 @@ impl Zones {
                 r is Some && r->Some_0.1 is CNAME ==> r->Some_0.1->rr.rtype_with_data is CNAME && r->Some_0.1->rr.rtype_with_data->CNAME_cname == r->Some_0.1->cname && r->Some_0.1->rr.name == *name,
                 // answer records are owned by the query name, a referral's records by one delegation point (zone_lookup: Zone::resolve/post:answer_records_owned_by_the_query_name)
                 r is Some ==> owners_ok(r->Some_0.1, *name),
+                // ... and, for a question about one record type, of that type (zone_lookup: Zones::resolve/post:answer_records_have_the_asked_type)
+                r is Some ==> answer_typed(r->Some_0.1, qtype),
     { unimplemented!() }
 }
 impl Zone {
@@ -61,7 +63,7 @@ impl SharedCache {
     pub fn get(&self, name: &DomainName, qtype: QueryType) -> (r: Vec<ResourceRecord>)
         ensures all_named(r@, *name),
             // cache: SharedCache::get/post:typed_lookup_returns_records_of_the_asked_type
-            qtype is Record ==> forall|x: int| 0 <= x < r@.len() ==> spec_rtype_of((#[trigger] r@[x]).rtype_with_data) == qtype->Record_0,
+            forall|x: int| 0 <= x < r@.len() ==> qmatch(spec_rtype_of((#[trigger] r@[x]).rtype_with_data), qtype),
     { unimplemented!() }
 }
 impl Metrics {
@@ -89,11 +91,13 @@ RESOLVE_STANDINS = """
 pub(crate) async fn resolve_forwarding(context: &mut Context<'_, ForwardingContextInner>, question: &Question) -> (r: Result<ResolvedRecord, ResolutionError>)
     requires old(context).r.forward_address == configured_forwarder(), // [C18:the_context_carries_the_configured_forwarder]
     ensures question.qtype != QueryType::Wildcard && r is Ok ==> chain_ok(resolved_rrs(r->Ok_0), question.name),
+            r is Ok ==> typed_ok(resolved_rrs(r->Ok_0), question.qtype),
 { unimplemented!() }
 #[verifier::external_body]
 pub(crate) async fn resolve_recursive(context: &mut Context<'_, RecursiveContextInner>, question: &Question) -> (r: Result<ResolvedRecord, ResolutionError>)
     requires old(context).r.upstream_dns_port == configured_port(), // [C18:the_context_carries_the_configured_port]
     ensures question.qtype != QueryType::Wildcard && r is Ok ==> chain_ok(resolved_rrs(r->Ok_0), question.name),
+            r is Ok ==> typed_ok(resolved_rrs(r->Ok_0), question.qtype),
 { unimplemented!() }
 """
 
@@ -171,6 +175,7 @@ proof { lemma_merged_step(old(priority)@, new@, idx); }"""},
         lsr is Done ==> r == lsr->resolved,
         !(lsr is Delegation) ==> resolved_rrs(r) == result_rrs(lsr), // [C01:conversion_keeps_the_records]
         lsr is Delegation ==> resolved_rrs(r).len() == 0, // [C09,C10:referral_records_are_not_answer_records]
+        forall|q: QueryType| !(lsr is Delegation) && #[trigger] typed_ok(result_rrs(lsr), q) ==> typed_ok(resolved_rrs(r), q),
         r is AuthoritativeNameError ==> lsr is Done && lsr->resolved is AuthoritativeNameError, // [C01:name_error_only_from_an_authoritative_zone]"""},
 }
 
@@ -184,6 +189,7 @@ pub uninterp spec fn configured_port() -> u16;
 pub fn query_nameserver(address: SocketAddr, question: Question, recursion_desired: bool) -> (r: Option<Message>)
     requires address == configured_forwarder(), // [C18:forwarding_mode_asks_only_the_configured_forwarder]
     ensures r is Some && question.qtype != QueryType::Wildcard ==> chain_ok(r->Some_0.answers@, question.name),
+            r is Some ==> typed_ok(r->Some_0.answers@, question.qtype),
 { unimplemented!() }
 #[verifier::external_body]
 pub fn get_nxdomain_nodata_soa<'a>(question: &Question, response: &'a Message, current_match_count: usize) -> (r: Option<&'a ResourceRecord>)
@@ -217,8 +223,9 @@ FORWARD = {
             local_first(zr(old(context), *question)->Some_0.1->rrs@, resolved_rrs(r->Ok_0)) || has_alias(resolved_rrs(r->Ok_0), question.name), // [C01:forwarding_local_records_first_and_nothing_of_their_name_and_type_added]
         // the local part of a chain comes first, in order, then what the forwarder supplied for the rest of the chain
         question.qtype != QueryType::Wildcard && r is Ok ==> chain_ok(resolved_rrs(r->Ok_0), question.name), // [C10:forwarded_chain_in_order_from_the_question_name]
+        r is Ok ==> typed_ok(resolved_rrs(r->Ok_0), question.qtype), // [C10:forwarded_answer_holds_only_aliases_and_records_of_the_asked_type]
     decreases ctx_limit(old(context)) - old(context).question_stack@.len(),""",
-    "entry": BU + " broadcast use group_chain, lemma_chain_concat_b, lemma_merged_nil_b, lemma_nil_concat_b, axiom_rr_vec_len, group_local_first, lemma_alias_concat_b;",
+    "entry": BU + " broadcast use group_chain, lemma_chain_concat_b, lemma_merged_nil_b, lemma_nil_concat_b, axiom_rr_vec_len, group_local_first, lemma_alias_concat_b, group_typed;",
 }
 
 RESOLVE = {
@@ -229,8 +236,9 @@ RESOLVE = {
     "contract": """    requires upstream_dns_port == configured_port(), forward_address is Some ==> forward_address->Some_0 == configured_forwarder(),
     ensures
         // C09: an answer section holds only records for the question name or its CNAME chain; C10: in chain order
-        question.qtype != QueryType::Wildcard && r.1 is Ok ==> chain_ok(resolved_rrs(r.1->Ok_0), question.name), // [C09,C10:answer_holds_only_the_question_name_and_its_alias_chain]""",
-    "entry": BU + " broadcast use group_chain;",
+        question.qtype != QueryType::Wildcard && r.1 is Ok ==> chain_ok(resolved_rrs(r.1->Ok_0), question.name), // [C09,C10:answer_holds_only_the_question_name_and_its_alias_chain]
+        r.1 is Ok ==> typed_ok(resolved_rrs(r.1->Ok_0), question.qtype), // [C10:answer_holds_only_aliases_and_records_of_the_asked_type]""",
+    "entry": BU + " broadcast use group_chain, group_typed;",
 }
 
 RESOLVE_LOCAL = {
@@ -284,11 +292,12 @@ RESOLVE_LOCAL = {
         question.qtype != QueryType::Wildcard && r is Ok && !(r->Ok_0 is Delegation) ==> chain_ok(result_rrs(r->Ok_0), question.name), // [C09,C10:chain_in_order_from_the_question_name]
         question.qtype != QueryType::Wildcard && r is Ok && r->Ok_0 is CNAME ==> chain_k(r->Ok_0->CNAME_rrs@, question.name, r->Ok_0->CNAME_rrs@.len() as int), // [C10:partial_chain_holds_aliases_only]
         r is Ok && r->Ok_0 is Partial ==> question.qtype == QueryType::Wildcard, // [C10:partial_results_only_for_any_questions]
+        r is Ok && !(r->Ok_0 is Delegation) ==> typed_ok(result_rrs(r->Ok_0), question.qtype), // [C10:only_aliases_and_records_of_the_asked_type]
         // C10: the chain starts with the zone's CNAME record for the question name
         guards_pass(old(context), *question) && zr(old(context), *question) is Some && zr(old(context), *question)->Some_0.1 is CNAME ==>
             r is Ok && result_rrs(r->Ok_0).len() > 0 && result_rrs(r->Ok_0)[0] == zr(old(context), *question)->Some_0.1->rr, // [C10:chain_starts_at_the_question_name]
     decreases ctx_limit(old(context)) - old(context).question_stack@.len(),""",
-    "entry": BU + " broadcast use group_chain, group_local_first;",
+    "entry": BU + " broadcast use group_chain, group_local_first, group_typed;",
 }
 
 SPEC2 = """
@@ -353,6 +362,54 @@ pub broadcast proof fn lemma_chain_concat_b(a: Seq<ResourceRecord>, b: Seq<Resou
     requires a.len() > 0, #[trigger] chain_k(a, q, a.len() as int), #[trigger] chain_k(b, a.last().rtype_with_data->CNAME_cname, k)
     ensures chain_ok(#[trigger] (a + b), q)
 { lemma_chain_concat(a, b, q, k); }
+// C10: "followed only by records of the asked type": every record that is not an alias has the asked type (any type for ANY)
+pub open spec fn typed_ok(rrs: Seq<ResourceRecord>, q: QueryType) -> bool {
+    forall|i: int| 0 <= i < rrs.len() ==> (#[trigger] rrs[i]).rtype_with_data is CNAME || qmatch(spec_rtype_of(rrs[i].rtype_with_data), q)
+}
+pub broadcast proof fn lemma_typed_concat_b(a: Seq<ResourceRecord>, b: Seq<ResourceRecord>, q: QueryType)
+    requires typed_ok(a, q), typed_ok(b, q)
+    ensures #[trigger] typed_ok(a + b, q)
+{
+    assert forall|i: int| 0 <= i < (a + b).len() implies (#[trigger] (a + b)[i]).rtype_with_data is CNAME || qmatch(spec_rtype_of((a + b)[i].rtype_with_data), q) by {
+        if i < a.len() { assert((a + b)[i] == a[i]); } else { assert((a + b)[i] == b[i - a.len()]); }
+    }
+}
+pub broadcast proof fn lemma_typed_merged_b(a: Seq<ResourceRecord>, b: Seq<ResourceRecord>, q: QueryType)
+    requires typed_ok(a, q), typed_ok(b, q)
+    ensures #[trigger] typed_ok(merged(a, b), q)
+{
+    reveal(merged);
+    let p = |rr: ResourceRecord| !has_key(a, key_of(rr));
+    let m = a + b.filter(p);
+    assert forall|i: int| 0 <= i < m.len() implies (#[trigger] m[i]).rtype_with_data is CNAME || qmatch(spec_rtype_of(m[i].rtype_with_data), q) by {
+        if i < a.len() { assert(m[i] == a[i]); }
+        else {
+            assert(m[i] == b.filter(p)[i - a.len()]);
+            lemma_filter_in(b, p, i - a.len());
+            let w = choose|w: int| 0 <= w < b.len() && b[w] == b.filter(p)[i - a.len()];
+        }
+    }
+}
+pub proof fn lemma_filter_in(s: Seq<ResourceRecord>, p: spec_fn(ResourceRecord) -> bool, i: int)
+    requires 0 <= i < s.filter(p).len()
+    ensures s.contains(s.filter(p)[i])
+    decreases s.len()
+{
+    reveal(Seq::filter);
+    if s.len() > 0 {
+        let d = s.drop_last();
+        if i < d.filter(p).len() {
+            lemma_filter_in(d, p, i);
+            let w = choose|w: int| 0 <= w < d.len() && d[w] == d.filter(p)[i];
+            assert(s[w] == d[w]);
+            assert(s.filter(p)[i] == d.filter(p)[i]);
+        } else {
+            assert(p(s.last()) && s.filter(p)[i] == s.last());
+            assert(s[s.len() - 1] == s.last());
+        }
+    }
+}
+pub broadcast group group_typed { lemma_typed_concat_b, lemma_typed_merged_b }
 // C01: records found locally keep their place: the answer starts with them and no later record has the name and type of one of them
 #[verifier::opaque]
 pub open spec fn local_first(z: Seq<ResourceRecord>, rr: Seq<ResourceRecord>) -> bool {
@@ -508,6 +565,8 @@ def build(G):
     G.item(L, "const", "CNAME_QTYPE")
     G.raw(ALL_NAMED_RS, ("spec", "all_named"))
     G.raw(OWNERS_OK_RS, ("spec", "owners_ok"))
+    G.raw(QMATCH_RS, ("spec", "qmatch"))
+    G.raw(ANSWER_TYPED_RS, ("spec", "answer_typed"))
     G.raw(SPEC_RS, ("spec", "local spec"))
     G.raw(SPEC2, ("spec", "local spec2"))
     specs = {k: dict(v, depub=True) for k, v in SPECS.items()}
